@@ -217,3 +217,15 @@ func onCycle(adj [][]int) []int {
 	sort.Ints(out)
 	return out
 }
+
+// DebugDump prints every object of every realm package created in the case (for diagnosis only).
+func DebugDump(s *Snap, w func(string)) {
+	for _, id := range s.Order {
+		o := s.Objs[id]
+		var refs []string
+		for _, r := range o.Refs {
+			refs = append(refs, Short(r))
+		}
+		w(fmt.Sprintf("  %s %s rc=%d owner=%s esc=%v refs=%v", Short(id), o.Kind, o.Info.RefCount, Short(o.Info.OwnerID), o.Info.IsEscaped, refs))
+	}
+}
